@@ -637,13 +637,14 @@ case("c19-update-writes-extra-column", "C19", "mutant", [(PC + "store/stage_ops.
                         version = version + 1
                     WHERE id = :id AND version = :version
                     \"\"\",""")], "C19.R3")
-case("c19-update-context-from-outputs", "C19", "mutant", [(PC + "transaction.py", """                        "context": json.dumps(stage.context, default=str),
+case("c19-update-context-from-outputs", "C19", "mutant", [(PC + "store/stage_ops.py", """                        "context": json.dumps(stage.context, default=str),
                         "outputs": json.dumps(stage.outputs, default=str),
                         "start_time": stage.start_time,
                         "end_time": stage.end_time,
                         "version": stage.version,
                     },
                 )
+
             if cursor.rowcount""", """                        "context": json.dumps(stage.outputs, default=str),
                         "outputs": json.dumps(stage.outputs, default=str),
                         "start_time": stage.start_time,
@@ -651,6 +652,7 @@ case("c19-update-context-from-outputs", "C19", "mutant", [(PC + "transaction.py"
                         "version": stage.version,
                     },
                 )
+
             if cursor.rowcount""")], "C19.R3")
 case("c19-task-order-dropped", "C19", "mutant", [(PC + "store/stage_ops.py", """            WHERE stage_id = :stage_id
             ORDER BY id ASC""", """            WHERE stage_id = :stage_id""")], "C19.R4")
@@ -664,3 +666,32 @@ case("c19-payload-field-discarded", "C19", "mutant", [("src/stabilize/queue/sqli
     data.pop("original_status", None)
 """)], "C19.R5")
 case("c19-refactor-rename-local", "C19", "refactor", [(PC + "converters.py", """    requisite_ids = json.loads(row["requisite_stage_ref_ids"] or "[]")""", """    req_ = json.loads(row["requisite_stage_ref_ids"] or "[]")"""), (PC + "converters.py", "        requisite_stage_ref_ids=set(requisite_ids),", "        requisite_stage_ref_ids=set(req_),")])
+
+# ---------------------------------------------------------------- C12
+case("c12-cancelstage-task-event-dropped", "C12", "mutant", [("src/stabilize/handlers/cancel_stage.py", """                    for task in canceled_tasks:
+                        self.event_recorder.record_task_completed(
+                            task, workflow_id=workflow_id, source_handler="CancelStageHandler"
+                        )
+""", """                    pass
+""")], "C12.R1")
+case("c12-success-recorded-as-canceled", "C12", "mutant", [("src/stabilize/handlers/complete_workflow.py", """                if status == WorkflowStatus.SUCCEEDED:
+                    self.event_recorder.record_workflow_completed(""", """                if status == WorkflowStatus.SUCCEEDED:
+                    self.event_recorder.record_workflow_canceled(""")], "C12.R1")
+case("c12-apply-case-wrong-status", "C12", "mutant", [("src/stabilize/events/replay.py", """            state.end_time = event.timestamp
+            state.status = "CANCELED\"""", """            state.end_time = event.timestamp
+            state.status = "TERMINAL\"""")], "C12.R1")
+case("c12-as-of-strict", "C12", "mutant", [("src/stabilize/events/replay.py", """                if e.sequence <= as_of_sequence
+""", """                if e.sequence < as_of_sequence
+""")], "C12.R3")
+case("c12-snapshot-beyond-as-of", "C12", "mutant", [("src/stabilize/events/replay.py", """            if snapshot and (as_of_sequence is None or snapshot.sequence <= as_of_sequence):""", """            if snapshot:""")], "C12.R3")
+case("c12-start-sequence-not-advanced", "C12", "mutant", [("src/stabilize/events/replay.py", """                state = self._load_state_from_snapshot(snapshot)
+                start_sequence = snapshot.sequence
+""", """                state = self._load_state_from_snapshot(snapshot)
+""")], "C12.R3")
+case("c12-snapshot-key-dropped", "C12", "mutant", [("src/stabilize/events/replay.py", """            end_time=_parse_time(state_dict.get("end_time")),
+""", "")], "C12.R4")
+case("c12-refactor-rename-state-var", "C12", "refactor", [("src/stabilize/events/replay.py", """                state = self._load_state_from_snapshot(snapshot)
+                start_sequence = snapshot.sequence
+""", """                state = self._load_state_from_snapshot(snapshot)
+                start_sequence = int(snapshot.sequence)
+""")])
